@@ -73,12 +73,13 @@ impl<T> LocalResult<T> {
     #[verifier::external_body]
     pub fn unwrap(self) -> (r: T) requires self is Single ensures self == LocalResult::Single(r) { unimplemented!() }
 }
+// chrono panics outside +-i64::MAX milliseconds: the requires clauses are chrono's documented limits
 impl Duration {
-    #[verifier::external_body] pub fn weeks(n: i64) -> (r: Duration) requires -1000000 <= n <= 1000000 ensures dur_secs(r) == scaled(n as int, 604800) { unimplemented!() }
-    #[verifier::external_body] pub fn days(n: i64) -> (r: Duration) requires -10000000 <= n <= 10000000 ensures dur_secs(r) == scaled(n as int, 86400) { unimplemented!() }
-    #[verifier::external_body] pub fn hours(n: i64) -> (r: Duration) requires -100000000 <= n <= 100000000 ensures dur_secs(r) == scaled(n as int, 3600) { unimplemented!() }
-    #[verifier::external_body] pub fn minutes(n: i64) -> (r: Duration) requires -1000000000 <= n <= 1000000000 ensures dur_secs(r) == scaled(n as int, 60) { unimplemented!() }
-    #[verifier::external_body] pub fn seconds(n: i64) -> (r: Duration) requires -10000000000 <= n <= 10000000000 ensures dur_secs(r) == scaled(n as int, 1) { unimplemented!() }
+    #[verifier::external_body] pub fn weeks(n: i64) -> (r: Duration) requires -15250284452471 <= n <= 15250284452471 ensures dur_secs(r) == scaled(n as int, 604800) { unimplemented!() }
+    #[verifier::external_body] pub fn days(n: i64) -> (r: Duration) requires -106751991167300 <= n <= 106751991167300 ensures dur_secs(r) == scaled(n as int, 86400) { unimplemented!() }
+    #[verifier::external_body] pub fn hours(n: i64) -> (r: Duration) requires -2562047788015215 <= n <= 2562047788015215 ensures dur_secs(r) == scaled(n as int, 3600) { unimplemented!() }
+    #[verifier::external_body] pub fn minutes(n: i64) -> (r: Duration) requires -153722867280912930 <= n <= 153722867280912930 ensures dur_secs(r) == scaled(n as int, 60) { unimplemented!() }
+    #[verifier::external_body] pub fn seconds(n: i64) -> (r: Duration) requires -9223372036854775 <= n <= 9223372036854775 ensures dur_secs(r) == scaled(n as int, 1) { unimplemented!() }
 }
 impl std::ops::Add<Duration> for DateTime<Local> {
     type Output = DateTime<Local>;
